@@ -17,7 +17,7 @@ theorem Steps.cast {code pc s f a b s' f'} (h : Steps P cfg inp code pc s f a s'
 theorem Pre.move {code s p s1 p1} (hp : Pre env inp code s p) (hpos : s1.pos = p1)
     (hple : p1 ≤ inp.length) (hlen : s1.ti ≤ s1.tree.length) (hm : MInv.ok s1.memo s1.maxTok.e) :
     Pre env inp code s1 p1 :=
-  ⟨hp.uniq, hp.used, hpos, hple, hlen, hm⟩
+  ⟨hp.uniq, hp.suniq, hp.used, hpos, hple, hlen, hm⟩
 
 omit [MInv] in
 theorem jumps_cons (i : Instr) (c : Code) : jumps (i :: c) = i.target?.toList ++ jumps c := by
@@ -39,14 +39,15 @@ macro "jmp" : tactic =>
 
 theorem good_seq_fail {e es p evs} (ih : Good P cfg env inp e p .fail evs) :
     Good P cfg env inp (.seq (e :: es)) p .fail evs := by
-  intro ko st code pc s f hc hp
+  intro ko pd pmk st code pc s f hc hp hlead
+  simp only [Lead, LeadL] at hlead
   cases es with
   | nil =>
     simp only [compile, compileSeq] at hc ⊢
-    exact ih ko st code pc s f hc hp
+    exact ih ko pd pmk st code pc s f hc hp hlead
   | cons e' es' =>
     simp only [compile, compileSeq] at hc ⊢
-    obtain ⟨s2, f2, hF, hj, hst⟩ := ih ko st code pc s f hc.left hp
+    obtain ⟨s2, f2, hF, hj, hst⟩ := ih ko pd pmk st code pc s f hc.left hp hlead
     exact ⟨s2, f2, hF, by simp [jumps_append, hj], hst⟩
 
 theorem good_seq_ok_fail {e es p p1 f1 evs1 evs2}
@@ -55,16 +56,17 @@ theorem good_seq_ok_fail {e es p p1 f1 evs1 evs2}
     (ih1 : Good P cfg env inp e p (.ok p1 f1) evs1)
     (ih2 : Good P cfg env inp (.seq es) p1 .fail evs2) :
     Good P cfg env inp (.seq (e :: es)) p .fail (evs1 ++ evs2) := by
-  intro ko st code pc s f hc hp
+  intro ko pd pmk st code pc s f hc hp hlead
+  simp only [Lead, LeadL] at hlead
   cases es with
   | nil => cases hev2
   | cons e' es' =>
     simp only [compile, compileSeq] at hc ⊢
-    obtain ⟨s1, fr1, hS, hst1⟩ := ih1 ko st code pc s f hc.left hp
+    obtain ⟨s1, fr1, hS, hst1⟩ := ih1 ko pd pmk st code pc s f hc.left hp hlead
     have hp1 : Pre env inp code s1 p1 :=
       hp.move hS.pos (Eval_bound hev hp.ple _ _ rfl).2 hS.len hS.memo
     have hc2 := hc.right
-    obtain ⟨s2, f2, hF, hj, hst2⟩ := ih2 ko _ code _ s1 fr1 (by simpa only [compile] using hc2) hp1
+    obtain ⟨s2, f2, hF, hj, hst2⟩ := ih2 ko false false _ code _ s1 fr1 (by simpa only [compile] using hc2) hp1 (Lead_false _ _ _ _)
     refine ⟨s2, f2, hS.trans_failed hp.len hF (compile_mono _ _ _ _ _ _), ?_, ?_⟩
     · simp only [compile] at hj; simp [jumps_append, hj]
     · intro pcko hl; exact hst1.trans (hst2 pcko hl)
@@ -75,19 +77,20 @@ theorem good_seq_ok {e es p p1 f1 evs1 p2 f2 evs2}
     (ih1 : Good P cfg env inp e p (.ok p1 f1) evs1)
     (ih2 : Good P cfg env inp (.seq es) p1 (.ok p2 f2) evs2) :
     Good P cfg env inp (.seq (e :: es)) p (.ok p2 (f1 ++ f2)) (evs1 ++ evs2) := by
-  intro ko st code pc s f hc hp
+  intro ko pd pmk st code pc s f hc hp hlead
+  simp only [Lead, LeadL] at hlead
   cases es with
   | nil =>
     cases hev2
     simp only [compile, compileSeq] at hc ⊢
-    simpa using ih1 ko st code pc s f hc hp
+    simpa using ih1 ko pd pmk st code pc s f hc hp hlead
   | cons e' es' =>
     simp only [compile, compileSeq] at hc ⊢
-    obtain ⟨s1, fr1, hS, hst1⟩ := ih1 ko st code pc s f hc.left hp
+    obtain ⟨s1, fr1, hS, hst1⟩ := ih1 ko pd pmk st code pc s f hc.left hp hlead
     have hp1 : Pre env inp code s1 p1 :=
       hp.move hS.pos (Eval_bound hev hp.ple _ _ rfl).2 hS.len hS.memo
     have hc2 := hc.right
-    obtain ⟨s2, fr2, hS2, hst2⟩ := ih2 ko _ code _ s1 fr1 (by simpa only [compile] using hc2) hp1
+    obtain ⟨s2, fr2, hS2, hst2⟩ := ih2 ko false false _ code _ s1 fr1 (by simpa only [compile] using hc2) hp1 (Lead_false _ _ _ _)
     refine ⟨s2, fr2, ?_, ?_⟩
     · rw [postorderL_append]
       exact hS.trans hS2 (compile_mono _ _ _ _ _ _)
@@ -99,14 +102,15 @@ theorem good_seq_ok {e es p p1 f1 evs1 p2 f2 evs2}
 theorem good_peekFor_ok {e p p1 f1 evs}
     (ih : Good P cfg env inp e p (.ok p1 f1) evs) :
     Good P cfg env inp (.peekFor e) p (.ok p []) evs := by
-  intro ko st code pc s f hc hp
+  intro ko pd pmk st code pc s f hc hp hlead
+  simp only [Lead] at hlead
   norm_code at hc
   obtain ⟨h1, hc⟩ := hc.head
   obtain ⟨h2, hc⟩ := hc.head
   have hcb := hc.left
   obtain ⟨h3, hc⟩ := hc.right.head
   obtain ⟨h4, _⟩ := hc.head
-  obtain ⟨s1, fr1, hS, hst⟩ := ih ko _ code _ s (f.set st.label (s.pos, s.ti)) hcb hp
+  obtain ⟨s1, fr1, hS, hst⟩ := ih ko pd pmk _ code _ s (f.set st.label (s.pos, s.ti)) hcb hp hlead
   have hfr : fr1 st.label = (p, s.ti) := by
     rw [hS.frame st.label (Nat.lt_succ_self _)]; simp [Frame.set, hp.pos]
   obtain ⟨hk, hl⟩ := hS.keep hp.len
@@ -124,12 +128,13 @@ theorem good_peekFor_ok {e p p1 f1 evs}
 theorem good_peekFor_fail {e p evs}
     (ih : Good P cfg env inp e p .fail evs) :
     Good P cfg env inp (.peekFor e) p .fail evs := by
-  intro ko st code pc s f hc hp
+  intro ko pd pmk st code pc s f hc hp hlead
+  simp only [Lead] at hlead
   norm_code at hc
   obtain ⟨h1, hc⟩ := hc.head
   obtain ⟨h2, hc⟩ := hc.head
   have hcb := hc.left
-  obtain ⟨s2, fr2, hF, hj, hst⟩ := ih ko _ code _ s (f.set st.label (s.pos, s.ti)) hcb hp
+  obtain ⟨s2, fr2, hF, hj, hst⟩ := ih ko pd pmk _ code _ s (f.set st.label (s.pos, s.ti)) hcb hp hlead
   refine ⟨s2, fr2, ?_, by jmp, ?_⟩
   · refine ⟨hF.keep, hF.len, ?_, hF.maxTok, hF.memo⟩
     intro n hn
@@ -142,13 +147,14 @@ theorem good_peekFor_fail {e p evs}
 theorem good_peekNot_ok {e p evs}
     (ih : Good P cfg env inp e p .fail evs) :
     Good P cfg env inp (.peekNot e) p (.ok p []) evs := by
-  intro ko st code pc s f hc hp
+  intro ko pd pmk st code pc s f hc hp hlead
+  simp only [Lead] at hlead
   have hcAll := hc
   norm_code at hc
   obtain ⟨h1, hc⟩ := hc.head
   obtain ⟨h2, hc⟩ := hc.head
   have hcb := hc.left
-  obtain ⟨s2, fr2, hF, hj, hst⟩ := ih st.label _ code _ s (f.set st.label (s.pos, s.ti)) hcb hp
+  obtain ⟨s2, fr2, hF, hj, hst⟩ := ih st.label pd pmk _ code _ s (f.set st.label (s.pos, s.ti)) hcb hp hlead
   have hu : env.used st.label = true := hp.usedIn hcb hj
   obtain ⟨_, hc⟩ := hc.right.head
   simp only [CEnv.lbl, hu, ↓reduceIte, List.cons_append, List.nil_append] at hc
@@ -173,12 +179,13 @@ theorem good_peekNot_ok {e p evs}
 theorem good_peekNot_fail {e p p1 f1 evs}
     (ih : Good P cfg env inp e p (.ok p1 f1) evs) :
     Good P cfg env inp (.peekNot e) p .fail evs := by
-  intro ko st code pc s f hc hp
+  intro ko pd pmk st code pc s f hc hp hlead
+  simp only [Lead] at hlead
   norm_code at hc
   obtain ⟨h1, hc⟩ := hc.head
   obtain ⟨h2, hc⟩ := hc.head
   have hcb := hc.left
-  obtain ⟨s1, fr1, hS, hst⟩ := ih st.label _ code _ s (f.set st.label (s.pos, s.ti)) hcb hp
+  obtain ⟨s1, fr1, hS, hst⟩ := ih st.label pd pmk _ code _ s (f.set st.label (s.pos, s.ti)) hcb hp hlead
   obtain ⟨h3, _⟩ := hc.right.head
   obtain ⟨hk, hl⟩ := hS.keep hp.len
   refine ⟨s1, fr1, ?_, by jmp, ?_⟩
@@ -196,13 +203,14 @@ theorem good_peekNot_fail {e p p1 f1 evs}
 theorem good_query_ok {e p p1 f1 evs}
     (ih : Good P cfg env inp e p (.ok p1 f1) evs) :
     Good P cfg env inp (.query e) p (.ok p1 f1) evs := by
-  intro ko st code pc s f hc hp
+  intro ko pd pmk st code pc s f hc hp hlead
+  simp only [Lead] at hlead
   have hu : env.used (st.label + 1) = true := hp.usedIn hc (by norm_code at hc; jmp)
   norm_code at hc
   obtain ⟨h1, hc⟩ := hc.head
   obtain ⟨h2, hc⟩ := hc.head
   have hcb := hc.left
-  obtain ⟨s1, fr1, hS, hst⟩ := ih st.label _ code _ s (f.set st.label (s.pos, s.ti)) hcb hp
+  obtain ⟨s1, fr1, hS, hst⟩ := ih st.label pd pmk _ code _ s (f.set st.label (s.pos, s.ti)) hcb hp hlead
   obtain ⟨h3, hc⟩ := hc.right.head
   have hc := hc.right
   obtain ⟨_, hc⟩ := hc.head
@@ -224,12 +232,13 @@ theorem good_query_ok {e p p1 f1 evs}
 theorem good_query_none {e p evs}
     (ih : Good P cfg env inp e p .fail evs) :
     Good P cfg env inp (.query e) p (.ok p []) evs := by
-  intro ko st code pc s f hc hp
+  intro ko pd pmk st code pc s f hc hp hlead
+  simp only [Lead] at hlead
   norm_code at hc
   obtain ⟨h1, hc⟩ := hc.head
   obtain ⟨h2, hc⟩ := hc.head
   have hcb := hc.left
-  obtain ⟨s2, fr2, hF, hj, hst⟩ := ih st.label _ code _ s (f.set st.label (s.pos, s.ti)) hcb hp
+  obtain ⟨s2, fr2, hF, hj, hst⟩ := ih st.label pd pmk _ code _ s (f.set st.label (s.pos, s.ti)) hcb hp hlead
   have hu : env.used st.label = true := hp.usedIn hcb hj
   obtain ⟨_, hc⟩ := hc.right.head
   simp only [CEnv.lbl, hu, ↓reduceIte, List.cons_append, List.nil_append] at hc
@@ -276,12 +285,13 @@ theorem compile_push_nonact {e : Expr} (h : e.isAct = false) (hast : env.ast = t
 
 /-- Shared argument for `<e>` and the implicit push: body, then `add(rule, positionN)`. -/
 theorem good_wrap_ok (hW : World P cfg env G inp) {w e : Expr} {r p p1 f1 evs}
-    (hw : ∀ ko st, compile env w ko false false st =
-      ⟨[.bb, .savePos st.label] ++ (compile env e ko false false { st with label := st.label + 1 }).code ++
-        [.add r st.label] ++ [.be], (compile env e ko false false { st with label := st.label + 1 }).st, false⟩)
+    (hw : ∀ ko pd pmk st, compile env w ko pd pmk st =
+      ⟨[.bb, .savePos st.label] ++ (compile env e ko pd pmk { st with label := st.label + 1 }).code ++
+        [.add r st.label] ++ [.be], (compile env e ko pd pmk { st with label := st.label + 1 }).st, false⟩)
+    (hl : ∀ pd pmk, Lead inp p pd pmk w → Lead inp p pd pmk e)
     (ih : Good P cfg env inp e p (.ok p1 f1) evs) :
     Good P cfg env inp w p (.ok p1 [.node ⟨r, p, p1⟩ f1]) (evs ++ [⟨r, p, p1⟩]) := by
-  intro ko st code pc s f hc hp
+  intro ko pd pmk st code pc s f hc hp hlead
   rw [hw] at hc ⊢
   simp only [List.cons_append, List.nil_append, List.append_assoc] at hc ⊢
   obtain ⟨h1, hc⟩ := hc.head
@@ -289,7 +299,7 @@ theorem good_wrap_ok (hW : World P cfg env G inp) {w e : Expr} {r p p1 f1 evs}
   have hcb := hc.left
   obtain ⟨h3, hc⟩ := hc.right.head
   obtain ⟨h4, _⟩ := hc.head
-  obtain ⟨s1, fr1, hS, hst⟩ := ih ko _ code _ s (f.set st.label (s.pos, (f st.label).2)) hcb hp
+  obtain ⟨s1, fr1, hS, hst⟩ := ih ko pd pmk _ code _ s (f.set st.label (s.pos, (f st.label).2)) hcb hp (hl _ _ hlead)
   have hfr : (fr1 st.label).1 = p := by
     rw [hS.frame st.label (Nat.lt_succ_self _)]; simp [Frame.set, hp.pos]
   obtain ⟨hlive, hlen⟩ := treeAdd_live s1.tree ⟨r, p, s1.pos⟩ s1.ti hS.len
@@ -312,18 +322,19 @@ theorem good_wrap_ok (hW : World P cfg env G inp) {w e : Expr} {r p p1 f1 evs}
       (by simp [List.length_append]; omega)
 
 theorem good_wrap_fail {w e : Expr} {r p evs}
-    (hw : ∀ ko st, compile env w ko false false st =
-      ⟨[.bb, .savePos st.label] ++ (compile env e ko false false { st with label := st.label + 1 }).code ++
-        [.add r st.label] ++ [.be], (compile env e ko false false { st with label := st.label + 1 }).st, false⟩)
+    (hw : ∀ ko pd pmk st, compile env w ko pd pmk st =
+      ⟨[.bb, .savePos st.label] ++ (compile env e ko pd pmk { st with label := st.label + 1 }).code ++
+        [.add r st.label] ++ [.be], (compile env e ko pd pmk { st with label := st.label + 1 }).st, false⟩)
+    (hl : ∀ pd pmk, Lead inp p pd pmk w → Lead inp p pd pmk e)
     (ih : Good P cfg env inp e p .fail evs) :
     Good P cfg env inp w p .fail evs := by
-  intro ko st code pc s f hc hp
+  intro ko pd pmk st code pc s f hc hp hlead
   rw [hw] at hc ⊢
   simp only [List.cons_append, List.nil_append, List.append_assoc] at hc ⊢
   obtain ⟨h1, hc⟩ := hc.head
   obtain ⟨h2, hc⟩ := hc.head
   have hcb := hc.left
-  obtain ⟨s2, fr2, hF, hj, hst⟩ := ih ko _ code _ s (f.set st.label (s.pos, (f st.label).2)) hcb hp
+  obtain ⟨s2, fr2, hF, hj, hst⟩ := ih ko pd pmk _ code _ s (f.set st.label (s.pos, (f st.label).2)) hcb hp (hl _ _ hlead)
   refine ⟨s2, fr2, ?_, by jmp, ?_⟩
   · refine ⟨hF.keep, hF.len, ?_, hF.maxTok, hF.memo⟩
     intro n hn
@@ -335,9 +346,9 @@ theorem good_wrap_fail {w e : Expr} {r p evs}
 
 /-- An action rule: `add(ruleActionN, position)`. -/
 theorem good_wrap_act (hW : World P cfg env G inp) {w : Expr} {r p}
-    (hw : ∀ ko st, (compile env w ko false false st).code = [.bb, .addHere r, .be]) :
+    (hw : ∀ ko pd pmk st, (compile env w ko pd pmk st).code = [.bb, .addHere r, .be]) :
     Good P cfg env inp w p (.ok p [.node ⟨r, p, p⟩ []]) [⟨r, p, p⟩] := by
-  intro ko st code pc s f hc hp
+  intro ko pd pmk st code pc s f hc hp hlead
   rw [hw] at hc ⊢
   obtain ⟨h1, hc⟩ := hc.head
   obtain ⟨h2, hc⟩ := hc.head
